@@ -84,6 +84,8 @@ def shape(name, seed=0):
         A = full_input("A.txt", t3, l3, locs3, k=0, seed=seed, missing=miss)
         B = full_input("B.txt", t3, l3, locs3, k=1, seed=seed)
         return [A, B]
+    if name == "three_inputs":
+        return shape("regular", seed) + [full_input("C.txt", t3, l3, locs3, k=2, seed=seed, missing=[("fcst", (2, 0, 1))])]
     if name == "one_input":
         return [full_input("A.txt", t3, l3, locs3, k=0, seed=seed, missing=[("fcst", (0, 1, 1))])]
     raise ValueError(name)
